@@ -62,6 +62,15 @@ def specStep (bw : Nat) (l : List Nat) : Op → Option (List Nat × Obs)
   | .iterFrom k => if k ≤ l.length then some (l, .nats (l.drop k)) else none
   | .revIterFrom k => if k ≤ l.length then some (l, .nats (l.take k).reverse) else none
 
+/-- `BitFieldSliceMut::copy` of the blanket impl for plain word vectors (`Vec<W>`, `[W]`,
+`Box<[W]>` as full-width slices): `len` clipped to what both sides hold, then a `copy_from_slice`;
+`dst.len() - to` / `self.len() - from` underflow (panic in a checked build) when out of range -/
+def sliceCopy (src dst : List Nat) (f t n : Nat) : Out (List Nat) :=
+  if dst.length < t ∨ src.length < f then .panic
+  else
+    let m := min (min n (dst.length - t)) (src.length - f)
+    .ok (dst.take t ++ ((src.drop f).take m ++ dst.drop (t + m)))
+
 /-- ops that may not touch storage at or beyond `len * bw` (C14 write frame) -/
 def Op.nonGrowing : Op → Bool
   | .push _ | .pop | .resize _ _ | .extend _ | .clear => false
